@@ -11,3 +11,4 @@ pub mod schema;
 pub mod scoping;
 pub mod luaexec;
 pub mod tyws;
+pub mod dump;
